@@ -1,4 +1,4 @@
-CONSTANTS Client = {c1, c2} Names = {"x", "y"} L = 2 MaxReq = 2 UnlockedLookup = TRUE
+CONSTANTS Client = {c1, c2} Names = {"x", "y"} L = 2 MaxReq = 2 UnlockedLookup = TRUE StripSetCookie = TRUE StripSessionCookie = TRUE
 SPECIFICATION Spec
 CHECK_DEADLOCK FALSE
-INVARIANTS NoLeak IssuedOnce Isolation NoFatal
+INVARIANTS NoLeak IssuedOnce Isolation NoFatal SessionCookieHidden
